@@ -1,0 +1,109 @@
+//go:build verif
+
+// Machine-checked contracts for package annotation (comment-only; read by /verif/cmd/govc).
+
+package annotation
+
+// ---- element-list algebra used by every edit path (C13) ----
+
+// incr(t, n): t is a strictly increasing list of indices into a list of length n. The second conjunct
+// (t[a] lies between a and n - (len(t) - a)) follows from the first by counting; it is stated because
+// it is the linear fact the bounds proofs use, and every caller establishes it by its loop invariant.
+//@ spec func incrA(t []int) bool = forall a int, b int :: {t[a]} {t[b]} 0 <= a && a < b && b < len(t) ==> t[a] < t[b]
+//@ spec func incrB(t []int, n int) bool = forall a int :: {t[a]} 0 <= a && a < len(t) ==> a <= t[a] && t[a] < n && t[a] + (len(t) - a) <= n
+//@ spec func incr(t []int, n int) bool = incrA(t) && incrB(t, n) && len(t) <= n
+
+//@ func Relationships.delete
+//@   prop C13
+//@   requires incr(todel, len(r))
+//@   invariant loop 1: 0 <= k && k <= len(todel) && k <= rangeindex + 1 && j == rangeindex + 1 - k && len(out) == len(r) - len(todel)
+//@   invariant loop 1: k < len(todel) ==> rangeindex < todel[k]
+//@   invariant loop 1: k > 0 ==> todel[k-1] <= rangeindex
+//@   assert at "out[j] = rel": k < len(todel) ==> todel[k] < len(r) && todel[k] + (len(todel) - k) <= len(r)
+//@   ensures len(result) == len(r) - len(todel) && fresh(result)
+
+//@ spec func ptEq(a dvid.Point3d, b dvid.Point3d) bool = a[0] == b[0] && a[1] == b[1] && a[2] == b[2]
+
+// sameNR(a, b): two elements agree in everything but their relationships
+//@ spec func sameNR(a Element, b Element) bool = ptEq(a.Pos, b.Pos) && a.Kind == b.Kind && a.Tags == b.Tags && a.Prop == b.Prop
+
+//@ func ElementNR.Copy
+//@   prop C13
+//@   modifies nothing
+//@   invariant loop 1: c != nil && c.Prop != nil && c.Prop != e.Prop && (forall q string :: has(c.Prop, q) == visited1[q]) && (forall q string :: visited1[q] ==> has(e.Prop, q)) && (forall q string :: visited1[q] ==> c.Prop[q] == e.Prop[q])
+//@   ensures result != nil && ptEq(result.Pos, e.Pos) && result.Kind == e.Kind
+//@   ensures len(result.Tags) == len(e.Tags) && (forall k int :: 0 <= k && k < len(e.Tags) ==> result.Tags[k] == e.Tags[k])
+//@   ensures forall q string :: has(result.Prop, q) == has(e.Prop, q) && (has(e.Prop, q) ==> result.Prop[q] == e.Prop[q])
+
+// delete removes the FIRST element at pt by moving the last element into its place: every other
+// element keeps its index and value, nothing else is dropped.
+//@ func ElementsNR.delete
+//@   prop C13
+//@   requires elems != nil
+//@   modifies elems.*, (*elems)[*]
+//@   invariant loop 1: cut == -1 && (forall k int :: 0 <= k && k <= rangeindex ==> !ptEq(pt, (*elems)[k].Pos))
+//@   ensures (forall k int :: 0 <= k && k < len(old(*elems)) ==> !ptEq(pt, old((*elems)[k].Pos))) ==> !changed && deleted == nil
+//@   ensures (forall k int :: 0 <= k && k < len(old(*elems)) ==> !ptEq(pt, old((*elems)[k].Pos))) ==> len(*elems) == len(old(*elems))
+//@   ensures (forall k int :: 0 <= k && k < len(old(*elems)) ==> !ptEq(pt, old((*elems)[k].Pos))) ==> (forall k int :: 0 <= k && k < len(*elems) ==> (*elems)[k] == old((*elems)[k]))
+//@   ensures forall c int :: 0 <= c && c < len(old(*elems)) && ptEq(pt, old((*elems)[c].Pos)) && (forall k int :: 0 <= k && k < c ==> !ptEq(pt, old((*elems)[k].Pos))) ==> changed && deleted != nil && ptEq(deleted.Pos, pt) && deleted.Kind == old((*elems)[c].Kind)
+//@   ensures forall c int :: 0 <= c && c < len(old(*elems)) && ptEq(pt, old((*elems)[c].Pos)) && (forall k int :: 0 <= k && k < c ==> !ptEq(pt, old((*elems)[k].Pos))) ==> len(*elems) == len(old(*elems)) - 1
+//@   ensures forall c int :: 0 <= c && c < len(old(*elems)) && ptEq(pt, old((*elems)[c].Pos)) && (forall k int :: 0 <= k && k < c ==> !ptEq(pt, old((*elems)[k].Pos))) ==> (forall k int :: 0 <= k && k < len(*elems) && k != c ==> (*elems)[k] == old((*elems)[k]))
+//@   ensures forall c int :: 0 <= c && c < len(old(*elems)) && ptEq(pt, old((*elems)[c].Pos)) && (forall k int :: 0 <= k && k < c ==> !ptEq(pt, old((*elems)[k].Pos))) ==> (c < len(*elems) ==> (*elems)[c] == old((*elems)[len(*elems) - 1]))
+
+// move without deleteElement re-positions every element at `from`; with deleteElement it re-positions
+// and removes the first one (last element moved into its place). No other element changes.
+//@ func ElementsNR.move
+//@   prop C13
+//@   requires elems != nil
+//@   modifies elems.*, (*elems)[*]
+//@   invariant loop 1: *elems == old(*elems)
+//@   invariant loop 1: forall k int :: rangeindex < k && k < len(*elems) ==> (*elems)[k] == old((*elems)[k])
+//@   invariant loop 1: deleteElement ==> !changed && moved == nil && (forall k int :: 0 <= k && k <= rangeindex ==> !ptEq(from, old((*elems)[k].Pos)) && (*elems)[k] == old((*elems)[k]))
+//@   invariant loop 1: !deleteElement ==> (forall k int :: 0 <= k && k <= rangeindex && ptEq(from, old((*elems)[k].Pos)) ==> changed && ptEq((*elems)[k].Pos, to) && (*elems)[k].Kind == old((*elems)[k].Kind) && (*elems)[k].Tags == old((*elems)[k].Tags) && (*elems)[k].Prop == old((*elems)[k].Prop))
+//@   invariant loop 1: !deleteElement ==> (forall k int :: 0 <= k && k <= rangeindex && !ptEq(from, old((*elems)[k].Pos)) ==> (*elems)[k] == old((*elems)[k]))
+//@   invariant loop 1: !deleteElement && changed ==> moved != nil && ptEq(moved.Pos, to)
+//@   invariant loop 1: !deleteElement && changed ==> (exists k int :: 0 <= k && k <= rangeindex && ptEq(from, old((*elems)[k].Pos)))
+//@   invariant loop 1: !deleteElement && !changed ==> moved == nil && (forall k int :: 0 <= k && k <= rangeindex ==> !ptEq(from, old((*elems)[k].Pos)))
+//@   ensures (forall k int :: 0 <= k && k < len(old(*elems)) ==> !ptEq(from, old((*elems)[k].Pos))) ==> !changed && moved == nil && *elems == old(*elems) && (forall k int :: 0 <= k && k < len(*elems) ==> (*elems)[k] == old((*elems)[k]))
+//@   ensures !deleteElement ==> *elems == old(*elems)
+//@   ensures !deleteElement ==> (forall k int :: 0 <= k && k < len(*elems) && ptEq(from, old((*elems)[k].Pos)) ==> changed && moved != nil && ptEq(moved.Pos, to) && ptEq((*elems)[k].Pos, to) && (*elems)[k].Kind == old((*elems)[k].Kind) && (*elems)[k].Tags == old((*elems)[k].Tags) && (*elems)[k].Prop == old((*elems)[k].Prop))
+//@   ensures !deleteElement ==> (forall k int :: 0 <= k && k < len(*elems) && !ptEq(from, old((*elems)[k].Pos)) ==> (*elems)[k] == old((*elems)[k]))
+//@   ensures deleteElement ==> (forall c int :: 0 <= c && c < len(old(*elems)) && ptEq(from, old((*elems)[c].Pos)) && (forall k int :: 0 <= k && k < c ==> !ptEq(from, old((*elems)[k].Pos))) ==> changed && moved != nil && ptEq(moved.Pos, to) && moved.Kind == old((*elems)[c].Kind) && len(*elems) == len(old(*elems)) - 1)
+//@   ensures deleteElement ==> (forall c int :: 0 <= c && c < len(old(*elems)) && ptEq(from, old((*elems)[c].Pos)) && (forall k int :: 0 <= k && k < c ==> !ptEq(from, old((*elems)[k].Pos))) ==> (forall k int :: 0 <= k && k < len(*elems) && k != c ==> (*elems)[k] == old((*elems)[k])))
+//@   ensures deleteElement ==> (forall c int :: 0 <= c && c < len(old(*elems)) && ptEq(from, old((*elems)[c].Pos)) && (forall k int :: 0 <= k && k < c ==> !ptEq(from, old((*elems)[k].Pos))) ==> (c < len(*elems) ==> (*elems)[c] == old((*elems)[len(*elems) - 1])))
+
+//@ func Element.Copy
+//@   prop C13
+//@   modifies nothing
+//@   ensures result != nil && ptEq(result.Pos, e.Pos) && result.Kind == e.Kind
+//@   ensures len(result.Tags) == len(e.Tags) && (forall k int :: 0 <= k && k < len(e.Tags) ==> result.Tags[k] == e.Tags[k])
+//@   ensures forall q string :: has(result.Prop, q) == has(e.Prop, q) && (has(e.Prop, q) ==> result.Prop[q] == e.Prop[q])
+//@   ensures len(result.Rels) == len(e.Rels) && (forall k int :: 0 <= k && k < len(e.Rels) ==> result.Rels[k] == e.Rels[k])
+
+// deleteRel touches nothing but the Rels fields: positions, kinds, tags and properties of all elements
+// and the list itself stay as they are; an element whose relationships do not mention pt keeps its Rels.
+// (That no relationship to pt remains is NOT proved: Relationships.delete has no content contract.)
+//@ func Elements.deleteRel
+//@   prop C13
+//@   requires elems != nil
+//@   modifies (*elems)[*]
+//@   invariant loop 1: forall k int :: 0 <= k && k < len(*elems) ==> sameNR((*elems)[k], old((*elems)[k]))
+//@   invariant loop 1: forall k int :: rangeindex#1 < k && k < len(*elems) ==> (*elems)[k].Rels == old((*elems)[k].Rels)
+//@   invariant loop 1: forall k int :: 0 <= k && k <= rangeindex#1 && (forall q int :: 0 <= q && q < len(old((*elems)[k].Rels)) ==> !ptEq(pt, old((*elems)[k].Rels[q].To))) ==> (*elems)[k].Rels == old((*elems)[k].Rels)
+//@   invariant loop 2: rangeindex#2 < len(elem.Rels) && len(todel) <= rangeindex#2 + 1
+//@   invariant loop 2: incrA(todel)
+//@   invariant loop 2: incrB(todel, rangeindex#2 + 1)
+//@   invariant loop 2: (forall q int :: 0 <= q && q <= rangeindex#2 ==> !ptEq(pt, elem.Rels[q].To)) ==> len(todel) == 0
+//@   ensures forall k int :: 0 <= k && k < len(*elems) ==> sameNR((*elems)[k], old((*elems)[k]))
+//@   ensures forall k int :: 0 <= k && k < len(*elems) && (forall q int :: 0 <= q && q < len(old((*elems)[k].Rels)) ==> !ptEq(pt, old((*elems)[k].Rels[q].To))) ==> (*elems)[k].Rels == old((*elems)[k].Rels)
+
+// Elements.delete = swap-delete of the first element at pt, then deleteRel(pt) on what remains.
+//@ func Elements.delete
+//@   prop C13
+//@   requires elems != nil
+//@   modifies elems.*, (*elems)[*]
+//@   invariant loop 1: cut == -1 && (forall k int :: 0 <= k && k <= rangeindex ==> !ptEq(pt, (*elems)[k].Pos))
+//@   ensures (forall k int :: 0 <= k && k < len(old(*elems)) ==> !ptEq(pt, old((*elems)[k].Pos))) ==> deleted == nil && len(*elems) == len(old(*elems)) && (forall k int :: 0 <= k && k < len(*elems) ==> sameNR((*elems)[k], old((*elems)[k])))
+//@   ensures forall c int :: 0 <= c && c < len(old(*elems)) && ptEq(pt, old((*elems)[c].Pos)) && (forall k int :: 0 <= k && k < c ==> !ptEq(pt, old((*elems)[k].Pos))) ==> changed && deleted != nil && ptEq(deleted.Pos, pt) && deleted.Kind == old((*elems)[c].Kind) && len(*elems) == len(old(*elems)) - 1
+//@   ensures forall c int :: 0 <= c && c < len(old(*elems)) && ptEq(pt, old((*elems)[c].Pos)) && (forall k int :: 0 <= k && k < c ==> !ptEq(pt, old((*elems)[k].Pos))) ==> (forall k int :: 0 <= k && k < len(*elems) && k != c ==> sameNR((*elems)[k], old((*elems)[k])))
+//@   ensures forall c int :: 0 <= c && c < len(old(*elems)) && ptEq(pt, old((*elems)[c].Pos)) && (forall k int :: 0 <= k && k < c ==> !ptEq(pt, old((*elems)[k].Pos))) ==> (c < len(*elems) ==> sameNR((*elems)[c], old((*elems)[len(*elems) - 1])))
